@@ -323,3 +323,167 @@ Proof.
     assert (uval w a * uval w b <= (M - 1) * (M - 1)) by nia. nia.
   - split; [exact Wl'|]. split; [exact Wh|]. lia.
 Qed.
+
+(* ================= item 3: signed multiplication ================= *)
+
+Lemma is_negative_uval' w n a : 0 < w -> (0 < n)%nat -> wf w n a ->
+  is_negative w a = (Mod w n / 2 <=? uval w a).
+Proof. intros Hw Hn Ha. destruct n as [|k]; [lia|]. apply is_negative_uval; auto. Qed.
+
+Lemma inS_false M x : inS M x = false <-> x < - (M / 2) \/ M / 2 <= x.
+Proof.
+  unfold inS. rewrite andb_false_iff, Z.leb_gt, Z.ltb_ge. tauto.
+Qed.
+
+Lemma flag_same M h P : M = 2 * h -> 0 < h -> 0 <= P ->
+  (M <=? P) || (h <=? P mod M) = negb ((- h <=? P) && (P <? h)).
+Proof.
+  intros HM Hh HP. destruct (Z.leb_spec M P); cbn [orb].
+  - destruct (Z.leb_spec (- h) P); destruct (Z.ltb_spec P h); cbn [negb andb]; try reflexivity; lia.
+  - rewrite Z.mod_small by lia.
+    destruct (Z.leb_spec h P); destruct (Z.leb_spec (- h) P); destruct (Z.ltb_spec P h);
+      cbn [negb andb]; try reflexivity; lia.
+Qed.
+
+Lemma flag_diff_none M h P : M = 2 * h -> 0 < h -> 0 <= P -> P mod M = h ->
+  (M <=? P) = negb ((- h <=? - P) && (- P <? h)).
+Proof.
+  intros HM Hh HP Hm. destruct (Z.leb_spec M P).
+  - destruct (Z.leb_spec (- h) (- P)); destruct (Z.ltb_spec (- P) h); cbn [negb andb]; try reflexivity; lia.
+  - rewrite Z.mod_small in Hm by lia.
+    destruct (Z.leb_spec (- h) (- P)); destruct (Z.ltb_spec (- P) h); cbn [negb andb]; try reflexivity; lia.
+Qed.
+
+Lemma flag_diff_some M h P : M = 2 * h -> 0 < h -> 0 <= P -> P mod M <> h ->
+  (M <=? P) || (h <=? P mod M) = negb ((- h <=? - P) && (- P <? h)).
+Proof.
+  intros HM Hh HP Hm. destruct (Z.leb_spec M P); cbn [orb].
+  - destruct (Z.leb_spec (- h) (- P)); destruct (Z.ltb_spec (- P) h); cbn [negb andb]; try reflexivity; lia.
+  - rewrite Z.mod_small in * by lia.
+    destruct (Z.leb_spec h P); destruct (Z.leb_spec (- h) (- P)); destruct (Z.ltb_spec (- P) h);
+      cbn [negb andb]; try reflexivity; lia.
+Qed.
+
+Theorem I_overflowing_mul_ok w n a b : 0 < w -> (0 < n)%nat -> wf w n a -> wf w n b ->
+  let '(r, f) := I_overflowing_mul w a b in
+  wf w n r /\ sval w r = wrapS (Mod w n) (sval w a * sval w b) /\
+  f = negb (inS (Mod w n) (sval w a * sval w b)).
+Proof.
+  intros Hw Hn Ha Hb. unfold I_overflowing_mul.
+  destruct (I_unsigned_abs_spec w n a Hw Hn Ha) as [Wa Ua].
+  destruct (I_unsigned_abs_spec w n b Hw Hn Hb) as [Wb Ub].
+  pose proof (U_overflowing_mul_ok w n _ _ Hw Wa Wb) as H.
+  destruct (U_overflowing_mul w (I_unsigned_abs w a) (I_unsigned_abs w b)) as [out ovf].
+  destruct H as (Wo & Uo & Fo). rewrite Ua, Ub in Uo, Fo.
+  rewrite (is_negative_sval w n a Hw Hn Ha), (is_negative_sval w n b Hw Hn Hb).
+  rewrite (is_negative_uval' w n out Hw Hn Wo).
+  pose proof (Mod_even w n Hw Hn) as He. pose proof (Mod_pos w n ltac:(lia)) as HM.
+  unfold inS.
+  set (SA := sval w a) in *. set (SB := sval w b) in *. set (M := Mod w n) in *.
+  remember (M / 2) as h eqn:Eh.
+  set (P := Z.abs SA * Z.abs SB) in *.
+  assert (HP : 0 <= P) by (unfold P; pose proof (Z.abs_nonneg SA); pose proof (Z.abs_nonneg SB); nia).
+  destruct (Bool.eqb (SA <? 0) (SB <? 0)) eqn:Es.
+  - assert (EP : P = SA * SB).
+    { unfold P. destruct (Z.ltb_spec SA 0); destruct (Z.ltb_spec SB 0); try discriminate Es.
+      - rewrite (Z.abs_neq SA), (Z.abs_neq SB) by lia. ring.
+      - rewrite (Z.abs_eq SA), (Z.abs_eq SB) by lia. ring. }
+    split; [exact Wo|]. split.
+    + apply sval_unique; auto. fold M. rewrite Uo, Z.mod_mod, EP by lia. reflexivity.
+    + rewrite Fo, Uo, <- EP. apply flag_same; lia.
+  - assert (EP : SA * SB = - P).
+    { unfold P. destruct (Z.ltb_spec SA 0); destruct (Z.ltb_spec SB 0); try discriminate Es.
+      - rewrite (Z.abs_neq SA), (Z.abs_eq SB) by lia. ring.
+      - rewrite (Z.abs_eq SA), (Z.abs_neq SB) by lia. ring. }
+    pose proof (I_checked_neg_uval w n out Hw Hn Wo) as Hc. fold M in Hc. rewrite <- Eh in Hc.
+    destruct (I_checked_neg w out) as [m|].
+    + destruct Hc as (Wm & Um & Hne). split; [exact Wm|]. split.
+      * apply sval_unique; auto. fold M.
+        rewrite Um, Z.mod_mod, Uo, opp_mod_idemp, EP by lia. reflexivity.
+      * rewrite Fo, Uo, EP. apply flag_diff_some; lia.
+    + split; [exact Wo|]. split.
+      * apply sval_unique; auto. fold M. rewrite EP, <- (opp_mod_idemp P), <- Uo, Hc by lia.
+        replace (- h) with (h + (-1) * M) by lia. rewrite Z_mod_plus_full. reflexivity.
+      * rewrite Fo, EP. apply flag_diff_none; lia.
+Qed.
+
+(* ================= item 4, signed projections ================= *)
+
+Theorem I_checked_mul_ok w n a b : 0 < w -> (0 < n)%nat -> wf w n a -> wf w n b ->
+  match I_checked_mul w a b with
+  | None => sval w a * sval w b < - (Mod w n / 2) \/ Mod w n / 2 <= sval w a * sval w b
+  | Some r => wf w n r /\ sval w r = sval w a * sval w b /\
+              - (Mod w n / 2) <= sval w a * sval w b < Mod w n / 2
+  end.
+Proof.
+  intros Hw Hn Ha Hb. pose proof (I_overflowing_mul_ok w n a b Hw Hn Ha Hb) as H.
+  unfold I_checked_mul, tuple_to_option. destruct (I_overflowing_mul w a b) as [r f].
+  destruct H as (Wr & Sr & Fr). cbn [fst snd].
+  destruct (inS (Mod w n) (sval w a * sval w b)) eqn:Ei; subst f; cbn [negb].
+  - apply inS_true in Ei. split; [exact Wr|]. split; [|exact Ei].
+    rewrite Sr. apply wrapS_id; auto; [apply Mod_pos; lia | apply Mod_even; auto].
+  - apply inS_false in Ei. exact Ei.
+Qed.
+
+(* wrapping_mul is the unsigned product of the bit patterns, read back as signed *)
+Theorem I_wrapping_mul_ok w n a b : 0 < w -> (0 < n)%nat -> wf w n a -> wf w n b ->
+  wf w n (I_wrapping_mul w a b) /\
+  sval w (I_wrapping_mul w a b) = wrapS (Mod w n) (sval w a * sval w b).
+Proof.
+  intros Hw Hn Ha Hb. unfold I_wrapping_mul.
+  destruct (U_wrapping_mul_ok w n a b Hw Ha Hb) as [Wr Ur].
+  pose proof (Mod_pos w n ltac:(lia)) as HM.
+  split; [exact Wr|]. apply sval_unique; auto.
+  rewrite Ur, Z.mod_mod by lia.
+  rewrite (Zmult_mod (sval w a) (sval w b)).
+  rewrite (sval_mod _ _ _ Hw Ha), (sval_mod _ _ _ Hw Hb), <- Zmult_mod. reflexivity.
+Qed.
+
+Theorem I_saturating_mul_ok w n a b : 0 < w -> (0 < n)%nat -> wf w n a -> wf w n b ->
+  wf w n (I_saturating_mul w a b) /\
+  sval w (I_saturating_mul w a b) =
+    Z.max (- (Mod w n / 2)) (Z.min (Mod w n / 2 - 1) (sval w a * sval w b)).
+Proof.
+  intros Hw Hn Ha Hb. pose proof (I_checked_mul_ok w n a b Hw Hn Ha Hb) as H.
+  unfold I_saturating_mul. destruct (I_checked_mul w a b) as [r|].
+  - destruct H as (Wr & Sr & Hr). split; [exact Wr|]. rewrite Sr. lia.
+  - rewrite (is_negative_sval w n a Hw Hn Ha), (is_negative_sval w n b Hw Hn Hb).
+    rewrite (wf_length _ _ _ Ha).
+    destruct (IMAX_spec w n Hw Hn) as [Wmax Smax]. destruct (IMIN_spec w n Hw Hn) as [Wmin Smin].
+    pose proof (Mod_even w n Hw Hn) as He. pose proof (Mod_pos w n ltac:(lia)) as HM.
+    set (SA := sval w a) in *. set (SB := sval w b) in *.
+    destruct (Z.ltb_spec SA 0); destruct (Z.ltb_spec SB 0); cbn [Bool.eqb].
+    + split; [exact Wmax|]. rewrite Smax. assert (0 <= SA * SB) by nia. lia.
+    + split; [exact Wmin|]. rewrite Smin. assert (SA * SB <= 0) by nia. lia.
+    + split; [exact Wmin|]. rewrite Smin. assert (SA * SB <= 0) by nia. lia.
+    + split; [exact Wmax|]. rewrite Smax. assert (0 <= SA * SB) by nia. lia.
+Qed.
+
+Theorem I_strict_mul_ok w n a b : 0 < w -> (0 < n)%nat -> wf w n a -> wf w n b ->
+  match I_strict_mul w a b with
+  | Panic => sval w a * sval w b < - (Mod w n / 2) \/ Mod w n / 2 <= sval w a * sval w b
+  | Ret r => wf w n r /\ sval w r = sval w a * sval w b /\
+             - (Mod w n / 2) <= sval w a * sval w b < Mod w n / 2
+  end.
+Proof.
+  intros Hw Hn Ha Hb. pose proof (I_checked_mul_ok w n a b Hw Hn Ha Hb) as H.
+  unfold I_strict_mul, option_expect. destruct (I_checked_mul w a b); exact H.
+Qed.
+
+Theorem I_mul_ok dbg w n a b : 0 < w -> (0 < n)%nat -> wf w n a -> wf w n b ->
+  match I_mul dbg w a b with
+  | Panic => dbg = true /\
+             (sval w a * sval w b < - (Mod w n / 2) \/ Mod w n / 2 <= sval w a * sval w b)
+  | Ret r => wf w n r /\ sval w r = wrapS (Mod w n) (sval w a * sval w b) /\
+             (dbg = true -> - (Mod w n / 2) <= sval w a * sval w b < Mod w n / 2 /\
+                            sval w r = sval w a * sval w b)
+  end.
+Proof.
+  intros Hw Hn Ha Hb. unfold I_mul. destruct dbg.
+  - pose proof (I_strict_mul_ok w n a b Hw Hn Ha Hb) as H.
+    destruct (I_strict_mul w a b) as [r|]; [|auto].
+    destruct H as (Wr & Sr & Hr). split; [exact Wr|]. split; [|auto].
+    rewrite Sr. symmetry. apply wrapS_id; auto; [apply Mod_pos; lia | apply Mod_even; auto].
+  - destruct (I_wrapping_mul_ok w n a b Hw Hn Ha Hb) as [Wr Sr].
+    split; [exact Wr|]. split; [exact Sr | discriminate].
+Qed.
